@@ -11,12 +11,21 @@ CHECKS = {}
 NOT_APPLICABLE = {}
 
 
+COMMON_NOTE = ("Trusted: Lean 4.33 kernel; axioms ⊆ {propext, Classical.choice, Quot.sound} (audited by #print axioms each run; "
+               "no sorry/native_decide/bv_decide/custom axioms); py/extract.py (Tie A) and the differential harness + Lean driver (Tie B, sampled); "
+               "the hand-written model is tied to the code only through those two ties. ")
+
+
 def load():
-    import importlib.util
-    spec = importlib.util.spec_from_file_location("manifest_table", VERIF / "py" / "manifest_table.py")
-    m = importlib.util.module_from_spec(spec)
-    spec.loader.exec_module(m)
-    return m.CHECKS, m.NOT_APPLICABLE
+    checks, na = {}, {}
+    for f in sorted((VERIF / "py" / "manifest_d").glob("C*.json")):
+        c = json.loads(f.read_text())
+        if "not_applicable" in c:
+            na[f.stem] = c["not_applicable"]
+        else:
+            c["note"] = COMMON_NOTE + c["note"]
+            checks[f.stem] = c
+    return checks, na
 
 
 def main():
